@@ -273,6 +273,8 @@ impl WorkerPool {
         result_sender: &std::sync::mpsc::Sender<TcpAnalysisResult>,
         filter: Option<&FilterConfig>,
     ) -> bool {
+        #[cfg(feature = "verif-hooks")]
+        crate::verif_hooks::sched_point("worker_packet", packet);
         if let Some(filter_cfg) = filter {
             if !raw_filter::apply(packet, filter_cfg) {
                 tracing::debug!("Filtered out packet before parsing");
@@ -319,6 +321,8 @@ impl WorkerPool {
             .checked_rem(self.num_workers.get())
             .unwrap_or(0);
 
+        #[cfg(feature = "verif-hooks")]
+        crate::verif_hooks::sched_point("dispatch_pre_send", &packet);
         match self.packet_senders[worker_id].try_send(packet) {
             Ok(()) => {
                 self.dispatched_count.fetch_add(1, Ordering::Relaxed);
